@@ -43,7 +43,7 @@ def api_entries(F, P):
     return fns
 
 
-def flag_opaque(F):
+def flag_opaque_old(F):
     """For the flag analysis everything except the primitive counter/list/state operations is expanded."""
     s = set()
     for f in F.fns.values():
